@@ -228,6 +228,19 @@ impl TokenRing {
     }
 }
 
+#[cfg(profirust_verif)]
+impl TokenRing {
+    /// Verification hook: name of the LAS state.
+    pub fn verif_las_state(&self) -> &'static str {
+        match self.las_state {
+            LasState::Uninitialized => "Uninit",
+            LasState::Discovery => "Disc",
+            LasState::Verification => "Verif",
+            LasState::Valid => "Valid",
+        }
+    }
+}
+
 impl core::fmt::Debug for TokenRing {
     fn fmt(&self, f: &mut core::fmt::Formatter<'_>) -> core::fmt::Result {
         let mut active_stations = [0u8; 127];
